@@ -520,6 +520,9 @@ func ChoiceHeavy(r *rand.Rand) *Grammar {
 		ch := func() rune { return alpha[r.Intn(len(alpha))] }
 		wide := len(alpha) > 20
 		term := func() *Expr {
+			if wide && r.Intn(14) == 0 {
+				return BridgingClass(r, 'a')
+			}
 			if wide && r.Intn(8) == 0 {
 				// a wide class: it takes the role of the switch's default case, so that narrower multi-key
 				// alternatives become real cases
@@ -860,7 +863,19 @@ func Backtracky(r *rand.Rand, alphabet []rune) *Grammar {
 					e = Alt(Seq(term(), term()), term())
 				}
 			case 0:
-				e = Seq(Un(KCapture, Un(KPlus, term())), Act())
+				if r.Intn(3) == 0 {
+					// a rule that records tokens of its own even when it matches the empty string
+					switch r.Intn(3) {
+					case 0:
+						e = Seq(Un(KQuery, term()), Act())
+					case 1:
+						e = Seq(Un(KCapture, Un(KQuery, term())), Act())
+					default:
+						e = Seq(Act(), Un(KQuery, Seq(term(), Act())))
+					}
+				} else {
+					e = Seq(Un(KCapture, Un(KPlus, term())), Act())
+				}
 			case 1:
 				e = Alt(Seq(term(), Act(), term()), term())
 			case 2:
@@ -978,4 +993,20 @@ func Nesting(r *rand.Rand) (*Grammar, []string) {
 		ins = append(ins, deep, deep[:len(deep)-1], "", string(open)+string(close))
 		return g, ins
 	}
+}
+
+// BridgingClass: a class whose items overlap so that inserting them merges several intervals: two disjoint
+// intervals and a third range that starts inside the first and ends inside the second ([a-ci-mb-j]), in any order.
+func BridgingClass(r *rand.Rand, base rune) *Expr {
+	a0 := base + rune(r.Intn(3))
+	a1 := a0 + 1 + rune(r.Intn(3))
+	b0 := a1 + 2 + rune(r.Intn(4))
+	b1 := b0 + 2 + rune(r.Intn(4))
+	items := []Item{{a0, a1}, {b0, b1}, {a0 + 1, b0 + 1}}
+	if r.Intn(2) == 0 {
+		c0 := b1 + 2 + rune(r.Intn(3))
+		items = append(items, Item{c0, c0 + 1 + rune(r.Intn(3))})
+	}
+	r.Shuffle(len(items), func(i, j int) { items[i], items[j] = items[j], items[i] })
+	return &Expr{K: KClass, Items: items}
 }
